@@ -40,6 +40,14 @@ CHECKS.update({
     ),
 })
 
+CHECKS.update({
+    "C04": dict(
+        technique="property-based testing with an external differential oracle: ctypes Structure/Union with identical members (C ABI) plus the independent reference layout; exhaustive enumeration of all short field sequences; five-way size agreement",
+        text="exhaustive enumeration of every sequence of <=3 (quick) / <=4 (thorough) fields over 12 kinds in packed and aligned mode and Hypothesis-generated nested definitions, each compared member by member against ctypes (sizeof, alignment, offsets) and against the reference layout; len(T), sizeof(T) in an expression, bytes consumed, len(T().dumps()) and len(parsed.dumps()) must all equal the reference size",
+        design_ref="DESIGN.md §4 C04",
+    ),
+})
+
 NOT_YET = {}
 
 
